@@ -473,6 +473,12 @@ func c02Exec(t *testing.T, sc *gen.Scenario, trace bool) *harness.Outcome {
 					// repeating a request never changes its answer
 					if i%3 == 0 {
 						again := one(i, rq, ".again")
+						uneval := len(stateFor(sc, rq).Unevaluable(rq.Ctx)) > 0
+						if uneval && (again.err || answers[ci][i].err) {
+							// with an unevaluable condition in the data, failing and answering are both admissible
+							// (C01); only two definite answers can contradict each other
+							again = answers[ci][i]
+						}
 						if again != answers[ci][i] && e.Out.Violation == nil {
 							e.Violate("repeat_changes_answer", "config="+c.name, "request %d answered %+v then %+v under configuration %s", i, answers[ci][i], again, c.name)
 						}
@@ -505,7 +511,11 @@ func c02Exec(t *testing.T, sc *gen.Scenario, trace bool) *harness.Outcome {
 					return
 				}
 				for i := range res {
+					uneval := len(stateFor(sc, sc.Requests[i]).Unevaluable(sc.Requests[i].Ctx)) > 0
 					for _, a := range res[i][1:] {
+						if uneval && (a.err || res[i][0].err) {
+							continue
+						}
 						if a != res[i][0] {
 							e.Violate("concurrent_copies_disagree", "config="+c.name, "request %d: concurrent copies answered %+v and %+v under configuration %s", i, res[i][0], a, c.name)
 							return
@@ -780,8 +790,9 @@ func cacheOpts(e *Env, sc *gen.Scenario) ([]server.OpenFGAServiceV1Option, *sims
 }
 
 type anyAns struct {
-	s   string
-	err bool
+	s         string
+	err       bool
+	truncated bool
 }
 
 func (e *Env) issue(ctx context.Context, s *server.Server, storeID string, rq gen.Request) anyAns {
@@ -789,18 +800,18 @@ func (e *Env) issue(ctx context.Context, s *server.Server, storeID string, rq ge
 	switch rq.Kind {
 	case "check":
 		a, err := e.SrvCheck(ctx, s, rq)
-		return anyAns{fmt.Sprint(a), err != nil}
+		return anyAns{fmt.Sprint(a), err != nil, false}
 	case "listobjects":
 		got, err := e.SrvListObjects(ctx, s, rq, false)
-		return anyAns{strings.Join(sorted(got), ","), err != nil}
+		return anyAns{strings.Join(sorted(got), ","), err != nil, false}
 	case "listusers":
 		got, err := e.SrvListUsers(ctx, s, rq)
-		return anyAns{strings.Join(sorted(got), ","), err != nil}
+		return anyAns{strings.Join(sorted(got), ","), err != nil, e.Truncated}
 	case "expand":
 		tr, err := e.SrvExpand(ctx, s, rq)
-		return anyAns{tr, err != nil}
+		return anyAns{tr, err != nil, false}
 	}
-	return anyAns{"?", true}
+	return anyAns{"?", true, false}
 }
 
 func c04Exec(t *testing.T, sc *gen.Scenario, trace bool) *harness.Outcome {
@@ -861,25 +872,32 @@ func c04Exec(t *testing.T, sc *gen.Scenario, trace bool) *harness.Outcome {
 				}
 				return
 			}
-			if a.s != b.s {
-				e.Violate("contextual_differs_from_stored", "kind="+rq.Kind, "%s %+v: with contextual tuples: %s; with the same tuples stored: %s", rq.Kind, rq, a.s, b.s)
+			// both variants against the reference on A ∪ B first (own tuples only: no leak from other
+			// requests); the reference verdicts carry the discriminating signatures of known defects
+			truncated := a.truncated || b.truncated
+			judge := func(x anyAns, who string) {
+				e.Truncated = truncated
+				switch rq.Kind {
+				case "check":
+					e.JudgeCheck(who, rq, stateFor(sc, rq), x.s == "true", nil, false)
+				case "listobjects":
+					var got []string
+					if x.s != "" {
+						got = strings.Split(x.s, ",")
+					}
+					e.JudgeListObjects(who, rq, stateFor(sc, rq), got, nil, false, 0, false)
+				case "listusers":
+					var got []string
+					if x.s != "" {
+						got = strings.Split(x.s, ",")
+					}
+					e.JudgeListUsers(who, rq, stateFor(sc, rq), got, nil, false)
+				}
 			}
-			// and both equal the reference on A ∪ B (own tuples only: no leak from other requests)
-			switch rq.Kind {
-			case "check":
-				e.JudgeCheck("ctx", rq, stateFor(sc, rq), a.s == "true", nil, false)
-			case "listobjects":
-				var got []string
-				if a.s != "" {
-					got = strings.Split(a.s, ",")
-				}
-				e.JudgeListObjects("ctx", rq, stateFor(sc, rq), got, nil, false, 0, false)
-			case "listusers":
-				var got []string
-				if a.s != "" {
-					got = strings.Split(a.s, ",")
-				}
-				e.JudgeListUsers("ctx", rq, stateFor(sc, rq), got, nil, false)
+			judge(a, "ctx")
+			judge(b, "stored")
+			if e.Out.Violation == nil && a.s != b.s && !truncated {
+				e.Violate("contextual_differs_from_stored", "kind="+rq.Kind, "%s %+v: with contextual tuples: %s; with the same tuples stored: %s", rq.Kind, rq, a.s, b.s)
 			}
 		}
 		for i := 0; i < len(sc.Requests); i += conc {
